@@ -112,10 +112,11 @@ Definition twfun (tag : Z) : Z -> rv -> rv -> rv :=
 Definition opt_bind {A B : Type} (o : option A) (f : A -> option B) : option B :=
   match o with Some a => f a | None => None end.
 
-Fixpoint all_lists (l : list val) : option (list (list val)) :=
+Fixpoint all_lists (l : list val) : option (list qentry) :=
   match l with
   | [] => Some []
-  | VList b :: l' => match all_lists l' with Some r => Some (b :: r) | None => None end
+  | VList b :: l' => match all_lists l' with Some r => Some (Some b :: r) | None => None end
+  | VNone :: l' => match all_lists l' with Some r => Some (None :: r) | None => None end
   | _ => None
   end.
 Fixpoint all_names (l : list val) : option (list fname) :=
@@ -188,16 +189,26 @@ Fixpoint dec_env (l : list val) : option (list (nat * listing)) :=
       opt_bind (dec_listing ls) (fun x => opt_bind (dec_env l') (fun r => Some ((nat_of h, x) :: r)))
   | _ => None
   end.
-(* a history entry is (t, env) -- the callback -- or (t, env, raw): the harness itself calls _step(t)
-   on the registered nodes raw[j] mod (number of nodes), in that order (exercises the recursion) *)
-Fixpoint dec_hist (l : list val) : option (list (Z * list (nat * listing) * option (list Z))) :=
+(* a history entry is
+     (t, env)       the callback fires at time t;
+     (t, env, raw)  the harness itself calls _step(t) on the registered nodes raw[j] mod (number of
+                    nodes), in that order (exercises the recursion);
+     (n,)           the next n calls of the program are made now (graph construction interleaved with
+                    ticks; start() is called after the first such entry).  A history without (n,)
+                    entries registers the whole program before start(). *)
+Inductive hentry :=
+| ETick (t : Z) (e : list (nat * listing)) (o : option (list Z))
+| EReg (n : nat).
+
+Fixpoint dec_hist (l : list val) : option (list hentry) :=
   match l with
   | [] => Some []
+  | VTup [VInt n] :: l' => opt_bind (dec_hist l') (fun r => Some (EReg (nat_of n) :: r))
   | VTup [VInt t; VList e] :: l' =>
-      opt_bind (dec_env e) (fun x => opt_bind (dec_hist l') (fun r => Some ((t, x, None) :: r)))
+      opt_bind (dec_env e) (fun x => opt_bind (dec_hist l') (fun r => Some (ETick t x None :: r)))
   | VTup [VInt t; VList e; VList raw] :: l' =>
       opt_bind (dec_env e) (fun x => opt_bind (all_Z raw) (fun o =>
-        opt_bind (dec_hist l') (fun r => Some ((t, x, Some o) :: r))))
+        opt_bind (dec_hist l') (fun r => Some (ETick t x (Some o) :: r))))
   | _ => None
   end.
 
@@ -295,7 +306,7 @@ Definition obs_states (st : state) : val :=
   VList (map (fun s => VTup [VInt (ctime s); obs_rv (crdd s)]) (ns st)).
 
 Definition env_of (hs : list nat) (e : list (nat * listing)) : nat -> listing :=
-  fun i => match find (fun hl => Nat.eqb (nth (fst hl) hs O) i) e with
+  fun i => match find (fun hl => Nat.ltb (fst hl) (length hs) && Nat.eqb (nth (fst hl) hs O) i) e with
            | Some hl => snd hl
            | None => []
            end.
@@ -307,17 +318,6 @@ Definition do_tick (g : graph) (env : nat -> listing) (t : Z) (o : option (list 
   | Some raw => step_all g env t (map (fun x => Z.to_nat (x mod Z.of_nat (length g))) raw) st
   end.
 
-Fixpoint run_ticks (g : graph) (hs sinks : list nat)
-         (h : list (Z * list (nat * listing) * option (list Z))) (st : state) : list val :=
-  match h with
-  | [] => []
-  | (t, e, o) :: h' =>
-      match do_tick g (env_of hs e) t o (mkSt (ns st) []) with
-      | Some st' => VTup [obs_events g sinks (log st'); obs_states st'] :: run_ticks g hs sinks h' st'
-      | None => [VFuel]
-      end
-  end.
-
 Fixpoint sink_nodes (p : list call) (hs : list nat) : list nat :=
   match p, hs with
   | CForeachRDD _ :: p', n :: hs' => n :: sink_nodes p' hs'
@@ -325,13 +325,36 @@ Fixpoint sink_nodes (p : list call) (hs : list nat) : list nat :=
   | _, _ => []
   end.
 
+(* state of a run: calls not yet made, graph, handles, calls made so far, node states *)
+Fixpoint run_entries (rest done : list call) (g : graph) (hs : list nat) (h : list hentry) (st : state)
+  : list val * graph * list nat :=
+  match h with
+  | [] => ([], g, hs)
+  | EReg n :: h' =>
+      let now := firstn n rest in
+      let '(g', hs') := expand_from now (g, hs) in
+      run_entries (skipn n rest) (done ++ now) g' hs' h'
+                  (extend_state st (skipn (length g) g'))
+  | ETick t e o :: h' =>
+      match do_tick g (env_of hs e) t o (mkSt (ns st) []) with
+      | Some st' =>
+          let '(obs, g2, hs2) := run_entries rest done g hs h' st' in
+          (VTup [obs_events g (sink_nodes done hs) (log st'); obs_states st'] :: obs, g2, hs2)
+      | None => ([VFuel], g, hs)
+      end
+  end.
+
+Definition has_reg (h : list hentry) : bool :=
+  existsb (fun e => match e with EReg _ => true | _ => false end) h.
+
 Definition run (c : val) : val :=
   match c with
   | VTup [VList prog; VList hist] =>
       match dec_prog prog, dec_hist hist with
       | Some p, Some h =>
-          let '(g, hs) := expand p in
-          VTup [obs_struct g; VList (map zi hs); VList (run_ticks g hs (sink_nodes p hs) h (init g))]
+          let h' := if has_reg h then h else EReg (length p) :: h in
+          let '(obs, g, hs) := run_entries p [] [] [] h' (mkSt [] []) in
+          VTup [obs_struct g; VList (map zi hs); VList obs]
       | _, _ => VBad
       end
   | _ => VBad
